@@ -126,6 +126,21 @@ def run_case(ctx, kind, rng, idx):
     C = mc.strongly_connected_counts(
         rng, nmin=2, nmax=6 if san else (8 if quick else 12), asym=asym,
         allow_periodic=not quick)
+    if rng.random() < 0.08:
+        # tree-shaped transition graph (a chain of states, a star): leaf
+        # states have one neighbour and no self-counts, so their row sum is
+        # exactly their single off-diagonal entry
+        n_t = int(rng.integers(3, 8))
+        C = np.zeros((n_t, n_t))
+        for b in range(1, n_t):
+            a = int(rng.integers(0, b)) if rng.random() < 0.5 else b - 1
+            C[a, b] = rng.integers(1, 2000)
+            C[b, a] = rng.integers(1, 2000)
+        inner = np.where((C > 0).sum(axis=1) > 1)[0]
+        if len(inner) and rng.random() < 0.5:
+            C[inner, inner] = rng.integers(0, 500, size=len(inner))
+        C = C.astype(np.int64)
+        ctx.count('tree_shaped_cases')
     if rng.random() < 0.15:
         C = C + C.T          # exactly symmetric input
     if rng.random() < 0.2:
@@ -199,9 +214,46 @@ def run_case(ctx, kind, rng, idx):
         dT = np.abs(both['py'][0] - both['compiled'][0]).max()
         dp = np.abs(both['py'][1] - both['compiled'][1]).max()
         ctx.count('implementations_compared')
-        if dT > 1e-6 or dp > 1e-6:
+        # the stationary vector of a nearly reducible chain amplifies a
+        # difference in T by about 1/(spectral gap)
+        ev = np.sort(np.abs(np.linalg.eigvals(both['py'][0])))[::-1]
+        gap = max(1.0 - (ev[1] if len(ev) > 1 else 0.0), 1e-12)
+        if dT > 1e-6 or dp > 1e-6 + 10 * dT / gap:
             ctx.violation('mle.implementations-disagree',
                           'max |T_py - T_c| = %.3g, |pi| %.3g' % (dT, dp))
+    # --- scale invariance: a common factor on the counts (re-weighted counts
+    # of 1e-20, pooled counts of 1e+15) leaves the estimate unchanged; decided
+    # on T itself, so no tolerance depends on the magnitude of the counts
+    if len(both) == 2 and idx % 2 == 0:
+        # (upwards only while the total stays below 1e13: beyond ~1e15 the
+        # increments of the log-likelihood the stopping rule watches round
+        # to zero in double precision and the iteration stops early - a limit
+        # of the arithmetic at totals no data set reaches, see DESIGN.md)
+        up = int(np.floor(np.log10(1e13 / max(Cf.sum(), 1.0))))
+        facs = [-30, -20, -12] + ([up] if up >= 2 else [])
+        fac = float(10.0 ** facs[int(rng.integers(0, len(facs)))])
+        for tag, fn in (('py', builders._prinz_mle_py),
+                        ('compiled', builders._prinz_mle)):
+            try:
+                with warnings.catch_warnings():
+                    warnings.simplefilter('ignore')
+                    Ts, pis = fn(Cf * fac)
+                ctx.count('scale_invariance_compared')
+                # judged by likelihood on the unscaled counts (the likelihood
+                # can be flat, so T itself may legitimately move)
+                Lb = loglik(Cf, both[tag][0])
+                Ls = loglik(Cf, np.asarray(Ts))
+                if np.isfinite(Lb) and not (Ls >= Lb - 1e-6 * (1 + abs(Lb))):
+                    ctx.violation(
+                        'mle.%s.scale-dependent' % tag,
+                        'counts multiplied by %g: log-likelihood of the '
+                        'estimate on the original counts %.12g, of the '
+                        'estimate from the original counts %.12g' % (
+                            fac, Ls, Lb))
+            except Exception as e:  # noqa
+                ctx.violation('mle.%s.raised[scaled]' % tag,
+                              'counts multiplied by %g: %s: %s' % (
+                                  fac, type(e).__name__, str(e)[:200]))
     # --- forced non-convergence: must warn, not raise -----------------------
     mi = int(rng.integers(1, 4))
     for tag, fn, arg in (('py', builders._prinz_mle_py, np.array(C)),
